@@ -106,7 +106,18 @@ def parse_copy_report(stderr):
     return lines, totals
 
 
-def run_inproc(tool, argv, cwd=None):
+class RunawayScript(BaseException):
+    """The script did not end within the time any run over the explored worlds needs many times over."""
+
+
+def _alarm(signum, frame):
+    raise RunawayScript()
+
+
+TIMEOUT_EXIT = 124
+
+
+def run_inproc(tool, argv, cwd=None, limit=120):
     """Run the script in this process.  Returns dict(exit, stderr, compiles=[{args, options, processed|raised}],
     indexes=[...]).  `processed` is {module: [status, alias|None, has_error]}."""
     from pysmi import compiler as C
@@ -140,20 +151,28 @@ def run_inproc(tool, argv, cwd=None):
     old_argv, old_cwd = sys.argv, os.getcwd()
     err, out = io.StringIO(), io.StringIO()
     code = None
+    import signal
+    old_handler = signal.signal(signal.SIGALRM, _alarm)
     try:
         sys.argv = [script(tool)] + list(argv)
         if cwd:
             os.chdir(cwd)
+        signal.alarm(limit)
         with contextlib.redirect_stderr(err), contextlib.redirect_stdout(out):
             try:
                 runpy.run_path(script(tool), run_name='__main__')
                 code = 0
+            except RunawayScript:
+                code = TIMEOUT_EXIT
+                rec['escaped'] = 'RunawayScript: no exit after %d s' % limit
             except SystemExit as e:
                 code = e.code if isinstance(e.code, int) else (0 if e.code is None else 1)
             except BaseException as e:      # an escaping exception = what the interpreter would turn into exit 1 + traceback
                 code = 1
                 rec['escaped'] = '%s: %s' % (type(e).__name__, str(e)[:200])
     finally:
+        signal.alarm(0)
+        signal.signal(signal.SIGALRM, old_handler)
         sys.argv = old_argv
         os.chdir(old_cwd)
         C.MibCompiler.compile, C.MibCompiler.buildIndex = orig_compile, orig_index
